@@ -15,7 +15,7 @@ CONSTANTS
   Kinds = {"api"}
   SpreadOf <- AllSpread
   Variant = "code"
-  MaxOps = 8
+  MaxOps = 7
   MaxEvents = 2
 VIEW View
 INVARIANTS ExactlyOnce AllFlushed NotEarly RingOK Rounded Placement DropsJustified OutIncreasing SendBound ChanCap
